@@ -7,6 +7,7 @@ mod c15;
 mod c16;
 mod c17;
 mod c18;
+mod c19;
 mod fault;
 mod plonkrun;
 mod rec;
@@ -66,6 +67,7 @@ fn main() {
         "c16" => c16::main(rest),
         "c17" => c17::main(rest),
         "c18" => c18::main(rest),
+        "c19" => c19::main(rest),
         "randshape" => {
             let seed: u64 = rest[0].parse().unwrap();
             println!("{}", serde_json::to_string(&shapes::random_shape(seed)).unwrap());
